@@ -213,6 +213,30 @@ func init() {
 			}
 			break
 		}
+		// an all-digit secret that does not fit an int64, marshalled as a string into numeric fields
+		dig := []byte("9")
+		for i := 0; len(dig) < 19; i++ {
+			dig = append(dig, '0'+sec[i%len(sec)]%10)
+		}
+		nNum := 0
+		for id, f := range ms.Fields {
+			if _, ok := f.(*field.Numeric); !ok || id < 2 || nNum >= 3 {
+				continue
+			}
+			nNum++
+			for _, v := range []any{string(dig), func() *string { x := string(dig); return &x }()} {
+				st := reflect.StructOf([]reflect.StructField{{Name: "X", Type: reflect.TypeOf(v), Tag: reflect.StructTag(fmt.Sprintf(`index:"%d"`, id))}})
+				p := reflect.New(st)
+				p.Elem().Field(0).Set(reflect.ValueOf(v))
+				g := iso8583.NewMessage(ms)
+				func() {
+					defer func() { recover() }()
+					if err := g.Marshal(p.Interface()); err != nil && bytes.Contains([]byte(err.Error()), dig) {
+						fs = append(fs, Finding{"c18-error-leak:Marshal", fmt.Sprintf("the error text of Marshal contains the complete value: %.140q", err.Error())})
+					}
+				}()
+			}
+		}
 		return true, fs
 	})
 }
